@@ -25,7 +25,7 @@ for d in $list; do
   if ! (cd "$S/repo" && patch -p1 -s --no-backup-if-mismatch < "$d" >/dev/null 2>&1); then echo "SELFTEST-BROKEN $name: patch does not apply"; fail=1; continue; fi
   if ! (cd "$S/repo" && go build ./... >/dev/null 2>"$S/build.err"); then echo "SELFTEST-BROKEN $name: variant does not compile: $(head -3 $S/build.err)"; fail=1; continue; fi
   n=$((n+1))
-  out=$(GVERIF_REPO="$S/repo" GVERIF_DIR="$S/verif" $V/bin/gverif check $prop 2>&1); code=$?
+  out=$(GVERIF_REPO="$S/repo" GVERIF_DIR="$S/verif" ${GVERIF_BIN:-$V/bin/gverif} check $prop 2>&1); code=$?
   if [ $code -eq 1 ] && echo "$out" | grep -q "^VIOLATION property=$prop"; then
     det=$((det+1)); echo "detected   $name: $(echo "$out" | grep FAIL | head -1 | cut -c1-220)"
   else
